@@ -92,7 +92,7 @@ def main(tier, seed, args):
     rep = Report(PID, tier, seed, 'model_checking')
     c = ctx('on')
     ns = (1, 2) if tier == 'quick' else (1, 2, 3)
-    rep.bounds = {'htlcs_per_hash': max(ns), 'hashes': 1, 'parts': 1, 'invoice_amount': 'present (symbolic u64) and absent (8 symbolic TLV bytes)',
+    rep.bounds = {'htlcs_per_hash': max(ns), 'hashes': 1, 'parts': '1 (amount clauses) / 2 (held-until-fate-known clause)', 'invoice_amount': 'present (symbolic u64) and absent (8 symbolic TLV bytes)',
                   'amounts': 'each HTLC amount in [0, 21e6 BTC]; forward_msat / total_msat full u64; policy full u32/u32/u16',
                   'outside': 'more HTLCs than stated; restarts (C02/C05 harnesses)'}
     rep.assumptions = ['a single HTLC amount does not exceed the money supply (2.1e18 msat), so the running sum cannot overflow u64',
@@ -116,6 +116,16 @@ def main(tier, seed, args):
                 break
         if rep.violations:
             break
+    if not rep.violations:
+        # last clause: the HTLCs counted stay held until the payment's fate is known -- a multi-part outgoing payment
+        # whose pay command ends without a final answer, parts failing with different codes in any order
+        from . import scen_payflow
+        from ..monitors import NoFailWhileLive
+        cfg, pc = scen_payflow.flow_cfg(1, 'free_absent', max_parts=2, max_total_parts=2, pay_outcomes=('error:210', 'pending'),
+                                        wait_fail_codes=(203, 204))
+        cov = Coverage(['pay'])
+        scen_common.run_configs(rep, PID, c, [('held until the fate is known[1 htlc, 2 outgoing parts]', cfg, pc, [NoFailWhileLive(), cov], {})],
+                                400 if tier == 'quick' else 3000)
     finish(rep, [c], './check C03 --tier ' + tier)
 
 def replay_cex(path):
